@@ -64,6 +64,7 @@ typedef struct hx_harness {
 
 int hx_main(int argc, char **argv, const hx_harness_t *h);
 uint64_t hx_current_seed(void);   /* seed of the run being executed */
+char *hx_scratch_dir(char *tmpl);  /* mkdtemp() whose directory is removed when the creating process exits */
 long hx_cli_knob(const char *name, long dflt);   /* value of a --knob given on the command line (visible to gen) */
 int hx_in_replay(void);           /* 1 when running an explicit plan (replay / minimisation) */
 
